@@ -227,6 +227,10 @@ impl<MutexType: RawMutex, T> ChannelReceiveAccess<T>
     }
 }
 
+#[cfg(kani)]
+#[path = "/verif/kani/oneshot.rs"]
+mod kani_verif;
+
 // Export a non thread-safe version using NoopLock
 
 /// A [`GenericOneshotChannel`] which is not thread-safe.
